@@ -462,7 +462,7 @@ func genC11(g *Gen) {
 		njs = append(njs, j)
 	}
 	ng := tailGrid(njs)
-	g.gridRun(len(ng), 0.3, func(i int) {
+	g.gridRun(len(ng), 0.6, func(i int) {
 		t := ng[i]
 		nk := g.r.Intn(19 - t.j) // digits kept above the dropped ones (possibly none)
 		v := new(big.Int)
@@ -656,6 +656,7 @@ func (g *Gen) cohortRich() d128.Decimal {
 func genC19(g *Gen) {
 	g.setMode(0)
 	g.onesGrid(0.12)
+	g.powPaddedIntGrid(0.07)
 	g.cmpTailGrid(0.12, func(x, y d128.Decimal) {
 		for _, xv := range []d128.Decimal{x, g.variant(x)} {
 			g.bin2("Cmp", xv, y)
